@@ -204,6 +204,7 @@ def check(ctx):
     scaled_columns_probe(ctx, ctx.n(400, 4000))
     # known finding F12: gmres
     known_gmres(ctx)
+    round6_probes(ctx)
 
 
 def known_gmres(ctx):
@@ -556,6 +557,50 @@ def scaled_columns_probe(ctx, ntrials):
                              {"n": n, "column_scales": scales.tolist(), "trial": t}, {"resid": res, "threshold": thr},
                              "every column's residual below max(rtol |b_j|, atol)")
                     return
+
+
+def round6_probes(ctx):
+    """(a) right-hand sides of very large / very small norm: a silent return meets the stopping test relative to |B|, for the three Krylov
+    methods (round-6 seed C01/15: gmres compared an absolute residual with a bound that had become relative, and returned its all-zero
+    initial guess without a warning when rtol |B| > 1).  (b) cg on a well-conditioned NON-Hermitian positive-definite operator with
+    every value of the documented option posdef: the normal-equations fallback is taken whatever the caller says about definiteness
+    (C01/16: an explicit posdef=True suppressed it; cg then warned and returned a wrong result on a system of condition number 2)"""
+    import xitorch as xt
+    from xitorch.linalg import solve
+    from xitorch._utils.exceptions import ConvergenceWarning
+    g = torch.Generator().manual_seed(ctx.seed + 83)
+    n = 8
+    R = torch.randn(n, n, dtype=DT, generator=g)
+    A = R @ R.T / n + 1.0 * torch.eye(n, dtype=DT)
+    An = torch.eye(n, dtype=DT) + 0.05 * torch.randn(n, n, dtype=DT, generator=g)
+    for meth, herm in (("cg", True), ("bicgstab", True), ("gmres", True), ("bicgstab", False), ("gmres", False)):
+        for scale in (1e9, 1e-9, 1.0):
+            A = A if herm else An
+            B = torch.randn(n, 2, dtype=DT, generator=g) * scale
+            with warnings.catch_warnings(record=True) as w:
+                warnings.simplefilter("always")
+                X = solve(xt.LinearOperator.m(A, is_hermitian=herm), B, method=meth, rtol=1e-7, atol=0.0)
+            warned = any(issubclass(i.category, ConvergenceWarning) for i in w)
+            ctx.count(("rhs-scale", meth, herm, scale), nontrivial=True)
+            rel = float(((A @ X - B).norm(dim=0) / B.norm(dim=0)).max())
+            if not warned and not rel <= 1e-4:
+                ctx.fail("oracle", "solve:%s:rhs-scale:silent-but-not-converged" % meth, {"n": n, "A_hermitian": herm, "norm_of_B": scale, "rtol": 1e-7, "atol": 0.0},
+                         {"relative_residual": rel, "X_is_zero": bool((X == 0).all())}, "relative residual <= 1e-4 or a ConvergenceWarning")
+    K = torch.randn(12, 12, dtype=DT, generator=g)
+    K = (K - K.T) / 2
+    Ap = torch.eye(12, dtype=DT) + 1.5 * K / torch.linalg.matrix_norm(K, 2)
+    Bp = torch.randn(12, 2, dtype=DT, generator=g)
+    ref = torch.linalg.solve(Ap, Bp)
+    for posdef in (None, False, True):
+        with warnings.catch_warnings(record=True) as w:
+            warnings.simplefilter("always")
+            X = solve(xt.LinearOperator.m(Ap, is_hermitian=False), Bp, method="cg", posdef=posdef, rtol=1e-8)
+        warned = any(issubclass(i.category, ConvergenceWarning) for i in w)
+        ctx.count(("cg-nonhermitian-posdef-option", posdef), nontrivial=True)
+        err = float((X - ref).norm() / ref.norm())
+        if warned or not err <= 1e-5:
+            ctx.fail("oracle", "solve:cg:non-hermitian:posdef-option", {"posdef": posdef, "A": "I + skew part, condition number about 2, n = 12"},
+                     {"warned": warned, "relative_error": err}, "silent and within 1e-5 of the dense solve")
 
 
 def search(ctx):
